@@ -392,6 +392,43 @@ Definition parent_exists (lay : layout) (m : fs) (f : fname) : bool :=
            end
   end.
 
+(* ---- the names a command supplies must be usable: printable, keys without
+   colon, pairwise distinct and not yet the name of any message file *)
+Definition wf_amsg (a : amsg) : bool :=
+  forallb value_char (a_key a) && forallb value_char (a_e a) && forallb value_char (a_t a).
+
+Fixpoint nodup_keys (l : list bytes) : bool :=
+  match l with
+  | [] => true
+  | k :: r => negb (existsb (bytes_eqb k) r) && nodup_keys r
+  end.
+
+Definition keys_ok (m : fs) (keys : list bytes) : bool :=
+  forallb (fun k => key_fresh m k && forallb value_char k) keys && nodup_keys keys.
+
+Fixpoint evens (l : list bytes) : list bytes :=       (* elements 0, 2, 4, ... *)
+  match l with
+  | x :: _ :: r => x :: evens r
+  | [x] => [x]
+  | [] => []
+  end.
+
+Definition wf_guid (g : bytes) : bool :=
+  match g with [] => false | _ => forallb name_char g end.
+
+(* the directory renames of a RENAME collide with nothing, each in the state
+   it is applied to *)
+Fixpoint renames_clear (lay : layout) (m : fs) (l : list (fname * fname)) : bool :=
+  match l with
+  | [] => true
+  | (f, g) :: r =>
+      rename_clear lay m f g
+      && match apply_op lay m (ORenameDir f g) with
+         | Some m' => renames_clear lay m' r
+         | None => true
+         end
+  end.
+
 (* ---- one command *)
 Definition unmodelled (sel : selection) : outcome :=
   {| o_ops := []; o_ack := AUnmodelled; o_sel := sel |}.
@@ -420,7 +457,7 @@ Definition run_cmd (lay : layout) (m : fs) (sel : selection) (c : cmd) : outcome
       else match ready m f with
       | None => unmodelled sel
       | Some u =>
-          if forallb (fun a => key_fresh m (a_key a)) msgs then
+          if keys_ok m (map a_key msgs) && forallb wf_amsg msgs then
             {| o_ops := reset_ops f ++ append_ops f (dest_sub sel f) u msgs
                         ++ tail_ops sel (Some f);
                o_ack := AOk; o_sel := sel |}
@@ -448,7 +485,7 @@ Definition run_cmd (lay : layout) (m : fs) (sel : selection) (c : cmd) : outcome
               else match ready m g with
               | None => unmodelled sel
               | Some ug =>
-                  if forallb (fun kn => key_fresh m (fst kn)) names then
+                  if keys_ok m (map fst names) then
                     {| o_ops := reset_ops f ++ reset_ops g
                          ++ copy_ops g (dest_sub sel g) us (files_of m f) ug uids names;
                        o_ack := AOk; o_sel := sel |}
@@ -466,6 +503,7 @@ Definition run_cmd (lay : layout) (m : fs) (sel : selection) (c : cmd) : outcome
               if negb (exists_ m (PDir g)) then
                 {| o_ops := reset_ops f; o_ack := ANo; o_sel := sel |}
               else if fname_eqb f g then
+                if negb (keys_ok m (evens tmps)) then unmodelled sel else
                 {| o_ops := reset_ops f ++ reset_ops f
                      ++ self_move_ops f (dest_sub sel f) us (files_of m f) uids tmps;
                    o_ack := AOk; o_sel := sel |}
@@ -529,7 +567,8 @@ Definition run_cmd (lay : layout) (m : fs) (sel : selection) (c : cmd) : outcome
       match f with
       | [] => unmodelled sel
       | _ =>
-        if exists_ m (PDir f) || negb (parent_exists lay m f) then unmodelled sel
+        if exists_ m (PDir f) || negb (parent_exists lay m f)
+           || exists_ m (PCtl f CUidl) || negb (wf_guid guid) then unmodelled sel
         else
           {| o_ops := [OMkdir (PDir f); OMkdir (PSub f STmp); OMkdir (PSub f SNew);
                        OMkdir (PSub f SCur); OCreat (PCtl f CMdf)]
@@ -544,7 +583,8 @@ Definition run_cmd (lay : layout) (m : fs) (sel : selection) (c : cmd) : outcome
       | _, _ =>
         if negb (exists_ m (PDir a)) || exists_ m (PDir b)
            || negb (parent_exists lay m b) || is_prefix a b then unmodelled sel
-        else if perm_of fname_eqb order (rename_set lay m a) then
+        else if perm_of fname_eqb order (rename_set lay m a)
+                && renames_clear lay m (map (fun f => (f, retarget a b f)) order) then
           {| o_ops := map (fun f => ORenameDir f (retarget a b f)) order
                       ++ tail_ops sel None;
              o_ack := AOk; o_sel := sel |}
